@@ -400,6 +400,27 @@ def run(ctx):
             run.instance(R8, {"fn": "foreign::finalize_tx", "obligation": "build_send_tx(parent_key_id := context.parent_key_id)", "producers": sorted(map(str, pr))[:4]}, held=held)
             if not held:
                 run.finding(Finding(R8, fzf.id, "the late-lock selection uses the active account instead of the account recorded in the context", site=c.site_of(fzf, b)))
+    R9 = "C01.R9"
+    run.rule(R9, "a late-locked send honours 'amount includes fee': the slate / context amount is the recipient amount computed by select_coins_and_fee", floor=1)
+    llc = ctx.fn(TX + "create_late_lock_context")
+    if llc:
+        sc_calls = cfg.find_calls(llc, SEL + "select_coins_and_fee")
+        asg = vf.field_assignments(llc, c.LW + "slate::Slate", "amount")
+        held = False
+        if len(sc_calls) == 1:
+            for b, st in asg:
+                if st["r"]["k"] != "use":
+                    continue
+                pr = vf.producers(llc, st["r"]["o"])
+                if any(x[0] == "call" and x[1] == SEL + "select_coins_and_fee" for x in pr) and ("field", "()", "2") in pr:
+                    held = True
+            # the amount_includes_fee option is forwarded to the estimate
+            t = sc_calls[0][1]
+            fwd = vf.has_field(vf.producers(llc, t["a"][2]) | vf.origins(llc, t["a"][2]), c.LW + "api_impl::types::InitTxArgs", "amount_includes_fee")
+            held = held and fwd
+        run.instance(R9, {"fn": "create_late_lock_context", "obligation": "slate.amount := the recipient amount returned by select_coins_and_fee(.., amount_includes_fee, ..)"}, held=held)
+        if not held:
+            run.finding(Finding(R9, llc.id, "a late-locked send ignores 'amount includes fee': the recipient amount is not reduced by the fee (the sender pays amount + fee)", site=llc.loc()))
     R5 = "C01.R5"
     run.rule(R5, "an agreed (fixed) fee is binding: build_send_tx goes on only when the re-computed fee equals it", floor=1)
     if bst:
